@@ -452,6 +452,29 @@ def check_corpus(fmt, mtjs, layout, opts):
         text = codecs.encode_tigerxml(mts, encoding=enc, **enc_kw)
     path = write_file(fmt, text, opts, enc)
     rpath, old_cwd = path, None
+    decoys = []
+    if opts.get('gz'):
+        # an unpacked file of the same name (other content, written later) lies next to the compressed one ...
+        dmt = [model.MT(77, model.mk_tokens(1, words=['decoy']), ('VROOT', '--', (1,)))]
+        dtext = {'export': codecs.encode_export, 'brackets': codecs.encode_brackets, 'discobrackets': codecs.encode_discobrackets,
+                 'tigerxml': codecs.encode_tigerxml}[fmt](dmt)
+        with open(path[:-3], 'w', encoding='utf-8') as f:
+            f.write(dtext)
+        decoys.append(path[:-3])
+        if opts.get('path') == 'relative':
+            # ... and a compressed file of the same relative name was read a moment ago from another working directory
+            other_cwd = os.path.join(scratch(), 'cwd-a')
+            rel = os.path.relpath(path, scratch())
+            os.makedirs(os.path.dirname(os.path.join(other_cwd, rel)), exist_ok=True)
+            with gzip.open(os.path.join(other_cwd, rel), 'wb') as f:
+                f.write(dtext.encode('utf-8'))
+            decoys.append(os.path.join(other_cwd, rel))
+            keep = os.getcwd()
+            os.chdir(other_cwd)
+            try:
+                run_reader(getattr(treeinput, fmt), os.path.join('.', rel), 'utf-8', quiet=True)
+            finally:
+                os.chdir(keep)
     if opts.get('path') == 'relative':
         # the file is named relative to a working directory that is neither its own nor the tool's
         old_cwd = os.getcwd()
@@ -515,6 +538,9 @@ def check_corpus(fmt, mtjs, layout, opts):
                 bad('interleaved-readers', 'read next to a second live reader on another .gz file: %d trees, differing from the %d '
                     'trees of the same file read alone' % (len(again), len(trees_)))
     os.unlink(path)
+    for dp in decoys:
+        if os.path.exists(dp):
+            os.unlink(dp)
     if err is not None:
         bad('exception', '%s: %s (after %d trees)' % (type(err).__name__, err, len(trees_)))
         return out
